@@ -47,6 +47,31 @@ let () =
          let bufs = if f.(3) = "-" then [] else List.map (fun x -> nat_of_int (int_of_string x)) (String.split_on_char ',' f.(3)) in
          let (out, e) = run_unsigned (kind_of f.(1)) (unhex f.(2)) bufs (nat_of_int (int_of_string f.(4))) in
          Printf.printf "%s %s\n" (tohex out) (uerr_name e)
+       | "P" ->
+         (* P mode wire sha256|~ md5|~ calgo(0=none) cval declared frags key stsP stsT seed dexp sha256hex(wire) md5b64(dexp) cksum(dexp) *)
+         let opt x = if x = "~" then None else Some (unhex x) in
+         let mode = match f.(1) with "0" -> Plain | "1" -> UnsignedTrailer TCrc32 | "2" -> UnsignedTrailer TCrc32c
+                                   | "3" -> Signed | "4" -> SignedTrailer TCrc32 | _ -> SignedTrailer TCrc32c in
+         let algo = function "1" -> CCrc32 | "2" -> CCrc32c | "3" -> CSha1 | "4" -> CSha256 | _ -> CCrc64nvme in
+         let wire = unhex f.(2) in
+         let declared = int_of_string f.(7) in
+         let zdecl = if declared = 0 then Z0 else if declared > 0 then Zpos (pos_of_int declared) else Zneg (pos_of_int (- declared)) in
+         let frags = if f.(8) = "-" then [] else
+             List.map (fun x -> match String.split_on_char ':' x with
+                 | [h; e] -> (unhex h, e = "1") | _ -> failwith "frag") (String.split_on_char ',' f.(8)) in
+         let dexp = unhex f.(13) in
+         let dsha = unhex f.(14) and dmd5 = unhex f.(15) and dck = unhex f.(16) in
+         let u = { u_mode = mode; u_wire = wire; u_sha256 = opt f.(3); u_md5 = opt f.(4);
+                   u_cksum = (if f.(5) = "0" then None else Some (algo f.(5), unhex f.(6)));
+                   u_declared = zdecl; u_frags = frags } in
+         let unknown = [n_of_int 63] in
+         let r = run_upload (fun w -> if w = wire then dsha else unknown) (fun d -> if d = dexp then dmd5 else unknown)
+             (fun _ d -> if d = dexp then dck else unknown) (unhex f.(9)) (unhex f.(10)) (unhex f.(11)) (unhex f.(12)) u in
+         (match r with
+          | Committed d -> Printf.printf "C %s\n" (tohex d)
+          | Failed e -> Printf.printf "F %s\n" (match e with
+              | X_Sha256Mismatch -> "Sha256Mismatch" | X_BadChunk e -> "BadChunk:" ^ rerr_name e | X_BadUChunk e -> "BadUChunk:" ^ uerr_name e
+              | X_InvalidDigest -> "InvalidDigest" | X_BadChecksum -> "BadChecksum" | X_TooLong -> "TooLong" | X_Incomplete -> "Incomplete"))
        | "K" -> Printf.printf "%s K\n" (tohex (signing_key (unhex f.(1)) (unhex f.(2)) (unhex f.(3))))
        | "H" -> Printf.printf "%s H\n" (tohex (sha256 (unhex f.(1))))
        | _ -> print_endline "? ?")
